@@ -49,6 +49,10 @@ Proof. intros. rewrite seq_nth; auto. Qed.
 Definition trapz_w (n : nat) (f : nat -> R) (x : list R) : R :=
   sumn' (n - 1) (fun o => (f (S o) + f o) * (nth (S o) x 0 - nth o x 0) / 2).
 
+Lemma trapz_cons2 f0 f1 fr x0 x1 xr :
+  trapz RO (f0 :: f1 :: fr) (x0 :: x1 :: xr) = (f1 + f0) * (x1 - x0) / 2 + trapz RO (f1 :: fr) (x1 :: xr).
+Proof. reflexivity. Qed.
+
 Lemma trapz_map_seq (f : nat -> R) : forall n s x, length x = n ->
   trapz RO (map f (seq s n)) x =
   sumn' (n - 1) (fun o => (f (s + S o)%nat + f (s + o)%nat) * (nth (S o) x 0 - nth o x 0) / 2).
@@ -59,16 +63,15 @@ Proof.
     destruct n as [|n'].
     + destruct xr; simpl in Hx; try discriminate. simpl. reflexivity.
     + destruct xr as [|x1 xr']; simpl in Hx; try discriminate.
-      change (seq s (S (S n'))) with (s :: seq (S s) (S n')).
-      change (map f (s :: seq (S s) (S n'))) with (f s :: map f (seq (S s) (S n'))).
-      change (seq (S s) (S n')) with (S s :: seq (S (S s)) n') at 1.
-      cbn [map trapz].
+      change (seq s (S (S n'))) with (s :: S s :: seq (S (S s)) n').
+      change (map f (s :: S s :: seq (S (S s)) n')) with (f s :: f (S s) :: map f (seq (S (S s)) n')).
+      rewrite trapz_cons2.
       change (f (S s) :: map f (seq (S (S s)) n')) with (map f (seq (S s) (S n'))).
       rewrite (IH (S s) (x1 :: xr')) by (simpl; lia).
       replace (S (S n') - 1)%nat with (S (S n' - 1)) by lia.
-      rewrite sumn_shift. cbn [oadd osub omul odiv o2 o1 RO].
+      rewrite sumn_shift.
       f_equal.
-      * rewrite Nat.add_0_r. replace (s + 1)%nat with (S s) by lia. simpl. lra.
+      * rewrite Nat.add_0_r. replace (s + 1)%nat with (S s) by lia. simpl. reflexivity.
       * apply sumn_ext. intros o _. replace (S s + S o)%nat with (s + S (S o))%nat by lia.
         replace (S s + o)%nat with (s + S o)%nat by lia. reflexivity.
 Qed.
